@@ -57,21 +57,40 @@ class SymMatch:
     def __init__(self, base, off, g, names, end):
         self.base, self.off, self.g, self.names, self._end = base, off, g, names, end
 
+    def _k(self, k):
+        return self.names[k] if isinstance(k, str) else k
+
     def end(self, k=0):
+        k = self._k(k)
+        if k and self.g.get(k) is None:
+            return -1
         return (self.g[k][1] if k else self._end) - self.off
 
     def start(self, k=0):
+        k = self._k(k)
+        if self.g.get(k) is None:
+            return -1
         return self.g[k][0] - self.off
 
     def span(self, k=0):
-        return (self.g[k][0] - self.off, self.g[k][1] - self.off)
+        return (self.start(k), self.end(k))
 
-    def group(self, k=0):
-        return self[k]
+    def group(self, *ks):
+        if not ks:
+            return self[0]
+        if len(ks) == 1:
+            return self[ks[0]]
+        return tuple(self[k] for k in ks)
+
+    def groups(self, default=None):
+        n = max([0] + [k for k in self.g if isinstance(k, int)] + list(self.names.values()))
+        return tuple((self[k] if self.g.get(k) is not None else default) for k in range(1, n + 1))
+
+    def groupdict(self, default=None):
+        return {name: (self[k] if self.g.get(k) is not None else default) for name, k in self.names.items()}
 
     def __getitem__(self, k):
-        if isinstance(k, str):
-            k = self.names[k]
+        k = self._k(k)
         sp = self.g.get(k)
         return None if sp is None else self.base[sp[0]:sp[1]]
 
